@@ -125,6 +125,8 @@ def _order_for(rng: random.Random, m: MG) -> list[str]:
 
 
 def gen_case_c14(seed: int, s: int, w: int, tier: str) -> dict:
+    if _is_deep(s):
+        return gen_deep_c14(seed, s, w, tier)
     rng = random.Random(f"{seed}:C14:{s}")
     ngraphs = _wchoice(rng, [(1, 0.6), (2, 0.3), (3, 0.1)])
     graphs = [world.gen_graph(rng, 1, 7, acyclic=rng.random() < 0.8) for _ in range(ngraphs)]
@@ -210,6 +212,75 @@ def gen_case_c14(seed: int, s: int, w: int, tier: str) -> dict:
 
 
 SWEEP_EVERY = 3  # every third C02 / C04 scenario id is a sweep scenario
+DEEP_EVERY = 97  # about one scenario id in a hundred is a *deep* scenario: a chain of several hundred nodes
+
+
+def _is_deep(s: int) -> bool:
+    return s % DEEP_EVERY == 5
+
+
+def _deep_graph(rng: random.Random) -> dict:
+    return world.gen_chain_graph(rng, rng.choice((300, 700, 1200)))
+
+
+def _deep_case(prop: str, seed: int, s: int, w: int, g: dict, script: list, queries: list | None = None) -> dict:
+    rng_w = random.Random(f"{seed}:{prop}:{s}:w{w}")
+    case = {
+        "prop": prop, "seed": seed, "scenario": s, "worker": w, "kind": "deep",
+        "graphs": [g], "histories": [world.gen_history(rng_w, g)],
+        "rounds": [{"scripts": {"c0": script}}],
+        "pops": [{"name": "seq", "policy": "seq", "notrace": True}],
+    }
+    if queries is not None:
+        case["queries"] = queries
+    return case
+
+
+def gen_deep_c14(seed: int, s: int, w: int, tier: str) -> dict:
+    rng = random.Random(f"{seed}:C14:{s}")
+    g = _deep_graph(rng)
+    names = g["nodes"]
+    n = len(names) - 3
+    ends = ["Y", "X", f"K{n - 1}", "K0", f"K{n // 2}", "Zz"]
+    script = []
+    for op in ("ancestors_inclusive", "descendants_inclusive", "topological_sort", "districts", "subgraph",
+               "remove_in_edges", "remove_out_edges", "remove_nodes_from", "get_markov_blanket"):
+        a: dict[str, Any] = {}
+        if op not in ("topological_sort", "districts"):
+            S = rng.sample(ends, rng.randint(1, 3))
+            if op == "subgraph" and rng.random() < 0.5:
+                S = names[: rng.randint(2, len(names))]
+            a = {"S": S, "c": rng.choice(("set", "list", "tuple"))}
+        script.append({"op": op, "t": ["g", 0], "a": a})
+    return _deep_case("C14", seed, s, w, g, script)
+
+
+def gen_deep_c02(seed: int, s: int, w: int, tier: str) -> dict:
+    """ID on a long chain.  Only queries whose cost is linear in the chain length (the treatment sits at the end of
+    the chain); y0's ID is quadratic and worse when line 4 splits a long chain into one sub-problem per node, which
+    is slow but not wrong, and no business of this check."""
+    rng = random.Random(f"{seed}:C02:{s}")
+    g = world.gen_chain_graph(rng, rng.choice((300, 700, 1000)))
+    n = len(g["nodes"]) - 3
+    qs = [{"g": 0, "X": ["X"], "Y": ["Y"]}, {"g": 0, "X": [f"K{n - 1}"], "Y": ["Y"]}, {"g": 0, "X": [f"K{n - 1}"], "Y": ["X"]}]
+    rng.shuffle(qs)
+    qs = qs[: rng.randint(1, 3)]
+    script = [{"op": rng.choice(("identify_outcomes", "identify", "identify_fresh")), "q": i, "form": "sets"}
+              for i in range(len(qs))]
+    return _deep_case("C02", seed, s, w, g, script, qs)
+
+
+def gen_deep_c04(seed: int, s: int, w: int, tier: str) -> dict:
+    rng = random.Random(f"{seed}:C04:{s}")
+    g = _deep_graph(rng)
+    n = len(g["nodes"]) - 3
+    script = []
+    for a, b, C in (("K0", "Y", [f"K{n // 2}"]), ("K0", "Y", []), ("K0", "Zz", ["Y"]), (f"K{n // 3}", "Y", ["X"]),
+                    ("X", "K0", [f"K{n - 1}", "Y"])):
+        script.append({"op": "are_d_separated", "t": ["g", 0],
+                       "a": {"a": a, "b": b, "C": C, "c": rng.choice(("set", "list", "tuple")), "sym": rng.random() < 0.5}})
+    return _deep_case("C04", seed, s, w, g, script)
+
 
 
 def gen_sweep_c02(seed: int, s: int, w: int, tier: str) -> dict:
@@ -243,6 +314,8 @@ def gen_sweep_c02(seed: int, s: int, w: int, tier: str) -> dict:
 
 
 def gen_case_c02(seed: int, s: int, w: int, tier: str) -> dict:
+    if _is_deep(s):
+        return gen_deep_c02(seed, s, w, tier)
     if s % SWEEP_EVERY == SWEEP_EVERY - 1:
         return gen_sweep_c02(seed, s, w, tier)
     rng = random.Random(f"{seed}:C02:{s}")
@@ -336,6 +409,8 @@ def gen_sweep_c04(seed: int, s: int, w: int, tier: str) -> dict:
 
 def gen_case_c04(seed: int, s: int, w: int, tier: str) -> dict:
     """Separation queries by 2-4 callers on shared ADMGs that keep being edited between rounds."""
+    if _is_deep(s):
+        return gen_deep_c04(seed, s, w, tier)
     if s % SWEEP_EVERY == SWEEP_EVERY - 1:
         return gen_sweep_c04(seed, s, w, tier)
     rng = random.Random(f"{seed}:C04:{s}")
